@@ -38,7 +38,9 @@ ALIASES = {
     'and': ['&'], 'or': ['|'], 'implies': ['->'], 'iff': ['<->'],
 }
 VOCAB = [s for _n, s in lang.LITERALS] + ['x', 'y', 'foo', 'x.y', 'a/b', '1', '0', '2.5', '.5', '1e3', '0x1F', '0b101', '1_000', '3.', '007']
-JUNK = ['#', '~', '^', '%', '"', "'", '\\', '?', '`', 'é', '∀', '$', '\t', '\n', '@', '{', '}', '.']
+JUNK = ['#', '~', '^', '%', '"', "'", '\\', '?', '`', 'é', '∀', '$', '\t', '\n', '@', '{', '}', '.',
+        # characters that Python counts as white space but the lexer does not
+        '\x0b', '\x1c', '\x85', '\xa0', '\u2003', '\u3000']
 
 
 class _Timeout(Exception):
@@ -158,7 +160,7 @@ def mutated(draw, tier):
         if not toks:
             break
         kind = draw(st.sampled_from(['delete', 'dup', 'swap', 'replace', 'truncate', 'junk', 'junk-in-token', 'trail', 'swap-bounds',
-                                     'weird-literal', 'undeclared-bound', 'undeclared-id', 'dotted', 'unit', 'unless-plain', 'paren', 'huge-bound', 'nothing-left']))
+                                     'weird-literal', 'undeclared-bound', 'undeclared-id', 'dotted', 'unit', 'unless-plain', 'paren', 'huge-bound', 'nothing-left', 'junk-at-end']))
         i = draw(st.integers(0, len(toks) - 1))
         kinds.append(kind)
         if kind == 'delete':
@@ -173,6 +175,8 @@ def mutated(draw, tier):
             toks = toks[:i]
         elif kind == 'junk':
             toks.insert(i, draw(st.sampled_from(JUNK)))
+        elif kind == 'junk-at-end':
+            toks = toks + [draw(st.sampled_from(JUNK))]
         elif kind == 'junk-in-token':
             toks[i] = toks[i] + draw(st.sampled_from(JUNK))
         elif kind == 'trail':
